@@ -290,6 +290,11 @@ def check_payload(run, f, cfg):
     run.floor("C03.R4", "payload-sites", n, 3, cfg)
 
 
+def stmt_backend(name):
+    from ..stmt import fn_backend
+    return fn_backend(name)
+
+
 def check_quoted_holes(run, f, cfg):
     """R3: dataflow over the TIR of every function with a sink: nothing unescaped between single quotes"""
     nfn = 0
@@ -327,7 +332,12 @@ def check_quoted_holes(run, f, cfg):
                 why = ""
                 if a[0] == "hole":
                     kind = a[1]
-                    if kind in ("ESCAPED_STR", "HEX2", "FMT_SAFE", "NUM", "BOOL"):
+                    if kind == "ESCAPED_STR" and stmt_backend(name) == "postgres" and not name.endswith("::write_string_quoted"):
+                        # PostgreSQL decodes backslash escapes only inside E'..': the shared escape_string writes them, so a
+                        # plain '..' around it is decoded differently (and `\'` ends the literal) - only the function that
+                        # decides the E prefix (write_string_quoted, rule R2) may place escaped text between quotes
+                        why = " - on PostgreSQL, text escaped by escape_string is sound only behind the E prefix chosen by write_string_quoted"
+                    elif kind in ("ESCAPED_STR", "HEX2", "FMT_SAFE", "NUM", "BOOL"):
                         ok = True
                     elif kind in ("DISPLAY", "FLOAT") and (a[2].get("ty") in SAFE_DISPLAY_TYPES or kind == "FLOAT"):
                         ok = True
